@@ -3,7 +3,10 @@ use crate::model::traversal::state::state_variable::StateVar;
 use crate::model::unit::Cost;
 use crate::model::{cost::cost_model_error::CostModelError, network::EdgeId};
 use serde::{Deserialize, Serialize};
+#[cfg(not(all(kani, feature = "verif-models")))]
 use std::collections::HashMap;
+#[cfg(all(kani, feature = "verif-models"))]
+use crate::util::verif_collections::HashMap;
 
 /// a mapping for how to transform network state values into a Cost.
 /// mappings come via lookup functions.
